@@ -12,7 +12,7 @@ from hv.base import ShardResult, Violation
 PROP = "C13"
 RULE = ("generated strongly connected street graphs (4-14 nodes on a jittered grid: Hamiltonian cycle + extra one-way and two-way streets, "
         "lengths >= straight line x [1, 1.6], speeds 5-120 km/h, some edges without speed), the shipped Denver graph and the straight-line "
-        "network; position pairs built from link starts / ends / interior cells, snapped arbitrary cells and mid-link vehicle positions (the cell "
+        "network (at ten places on earth, destinations also in the ring of 1-2 cells around the origin); position pairs built from link starts / ends / interior cells, snapped arbitrary cells and mid-link vehicle positions (the cell "
         "of the (lat, lon)-interpolated point, which may lie off the link's grid line), including the same link in both "
         "orders, opposite directions of one street, adjacent links and identical positions; validity predicate on route(o, d): empty iff o == d; "
         "first link starts at o's cell on o's link, last link ends at d's cell on d's link, consecutive links join end to start, every link id "
@@ -21,6 +21,8 @@ RULE = ("generated strongly connected street graphs (4-14 nodes on a jittered gr
 ASSUMPTIONS = ["street graphs are strongly connected and node ids are ints, as OSMRoadNetwork requires; a third of the generated graphs have parallel edges between one junction pair (the link table keeps one link per ordered node pair)",
                "the OSM loader workaround (node_link_graph(edges='links')) is used because OSMRoadNetwork.from_file cannot read the shipped JSON under the installed networkx",
                "PYTHONHASHSEED pinned to 0"]
+HAV_PLACES = [(graphs.LAT0, graphs.LON0), (graphs.LAT0, graphs.LON0), (47.6062, -122.3321), (41.8781, -87.6298), (51.5074, -0.1278), (35.6762, 139.6503),
+              (-0.1807, -78.4678), (-33.8688, 151.2093), (69.6492, 18.9553), (0.0001, 179.9990)]
 FLOORS = {"quick": {"pairs": 2000, "flag:inner_links": 350, "flag:same_link_backwards": 50, "flag:opposite_directions": 20, "flag:off_grid_line_interior": 30}, "thorough": {"pairs": 100000}}
 
 
@@ -29,8 +31,14 @@ def st_case(draw) -> Dict[str, Any]:
     net = draw(st.sampled_from(["gen", "gen", "gen", "denver", "hav"]))
     g = draw(graphs.st_graph(4, 14, arbitrary_lengths=draw(st.booleans()), scales=(1, 1, 1, 3), parallel=draw(st.sampled_from([False, False, True])))) if net == "gen" else None
     if net == "hav":
-        cell = st.tuples(st.just("cell"), st.integers(0, 300), st.integers(0, 300)).map(lambda t: ["cell", round(graphs.LAT0 + t[1] * 0.00008, 6), round(graphs.LON0 + t[2] * 0.00008, 6)])
-        pairs = draw(st.lists(st.tuples(cell, cell).map(list), min_size=1, max_size=8))
+        # the straight-line network has no geography of its own: any place on earth is a legal input, and the size and
+        # orientation of the location cells differ from place to place (neighbouring resolution-15 cells are 0.82 m apart
+        # in Tromso, 1.04-1.07 m in Denver, 1.12 m in Sydney)
+        la0, lo0 = draw(st.sampled_from(HAV_PLACES))
+        cell = st.tuples(st.just("cell"), st.integers(0, 300), st.integers(0, 300)).map(lambda t: ["cell", round(la0 + t[1] * 0.00008, 6), round(lo0 + t[2] * 0.00008, 6)])
+        # destination: an independent cell, or the i-th cell of the ring of radius 1-2 around the origin's cell (next-door positions)
+        near = st.tuples(st.just("ring"), st.integers(1, 2), st.integers(0, 11)).map(list)
+        pairs = draw(st.lists(st.tuples(cell, st.one_of(cell, near)).map(list), min_size=1, max_size=8))
     else:
         pos = graphs.st_position()
         special = st.tuples(st.integers(0, 1000), graphs.st_where, graphs.st_where, st.sampled_from(["same", "reverse", "identical"]))
@@ -62,7 +70,13 @@ def resolve_pair(rn, case, o_spec, d_spec):
     from nrel.hive.model.entity_position import EntityPosition
 
     if case["net"] == "hav":
-        return (rn.position_from_geoid(h3.geo_to_h3(o_spec[1], o_spec[2], 15)), rn.position_from_geoid(h3.geo_to_h3(d_spec[1], d_spec[2], 15)))
+        oc = h3.geo_to_h3(o_spec[1], o_spec[2], 15)
+        if d_spec[0] == "ring":
+            ring = sorted(h3.k_ring(oc, d_spec[1]) - h3.k_ring(oc, d_spec[1] - 1))
+            dc = ring[d_spec[2] % len(ring)]
+        else:
+            dc = h3.geo_to_h3(d_spec[1], d_spec[2], 15)
+        return (rn.position_from_geoid(oc), rn.position_from_geoid(dc))
     o = graphs.resolve_position(rn, o_spec)
     if d_spec[0] != "rel":
         return o, graphs.resolve_position(rn, d_spec)
@@ -162,6 +176,8 @@ def check_case(case: Dict[str, Any]) -> Tuple[List[Violation], Set[str], Dict[st
                 flags.add("opposite_directions")
         else:
             flags.add("straight_line")
+            if ds_[0] == "ring":
+                flags.add("straight_line_next_door")
         if out:
             break
     return out, flags, dict(stats)
